@@ -520,8 +520,18 @@ func extra8C02(c *Ctx) {
 				if !isB {
 					continue
 				}
-				call, isC := ast.Unparen(be.X).(*ast.CallExpr)
-				if !isC || core.CalleeName(info, call) != "builtin.len" || !core.UsesObj(info, call.Args[0], list) {
+				isLenOfList := false
+				for _, x := range expand(g, be.X, 2) { // len(list), directly or through a local
+					if call, isC := x.(*ast.CallExpr); isC && core.CalleeName(info, call) == "builtin.len" && core.UsesObj(info, call.Args[0], list) {
+						isLenOfList = true
+					}
+					if e, isE := x.(ast.Expr); isE {
+						if call, isC := ast.Unparen(e).(*ast.CallExpr); isC && core.CalleeName(info, call) == "builtin.len" && core.UsesObj(info, call.Args[0], list) {
+							isLenOfList = true
+						}
+					}
+				}
+				if !isLenOfList {
 					continue
 				}
 				if v, isK := core.ConstInt(info, be.Y); isK && v == 0 && ((be.Op == token.EQL && a.Val) || (be.Op == token.LEQ && a.Val) || (be.Op == token.NEQ && !a.Val) || (be.Op == token.GTR && !a.Val)) {
@@ -533,8 +543,12 @@ func extra8C02(c *Ctx) {
 		}
 		// an element of the list: list[i] or the value variable of a loop over it
 		fromList := false
-		if ix, isIx := r.(*ast.IndexExpr); isIx && core.UsesObj(info, ix.X, list) {
-			fromList = true
+		for _, x := range expand(g, r, 2) { // list[i], directly or through a local
+			if e, isE := x.(ast.Expr); isE {
+				if ix, isIx := ast.Unparen(e).(*ast.IndexExpr); isIx && core.UsesObj(info, ix.X, list) {
+					fromList = true
+				}
+			}
 		}
 		for _, lp := range listLoops(info, f.Body) { // the current element of a loop over the list, in any spelling
 			if lp.List == list && within(lp.Stmt, ex.Return) && lp.IsElem(r) {
@@ -749,10 +763,11 @@ func extra8C09(c *Ctx) {
 	g := c.G(f)
 	n := 0
 	for _, up := range g.FindCalls("server.uploadBlob") {
-		var loop *ast.RangeStmt
-		for _, rl := range rangeLoops(f) {
-			if within(rl.Stmt.Body, up.Node) && (loop == nil || within(loop, rl.Stmt)) {
-				loop = rl.Stmt
+		var loop *listLoop
+		lps := listLoops(info, f.Body)
+		for i := range lps {
+			if within(lps[i].Body, up.Node) && (loop == nil || within(loop.Stmt, lps[i].Stmt)) {
+				loop = &lps[i]
 			}
 		}
 		if loop == nil {
@@ -765,7 +780,10 @@ func extra8C09(c *Ctx) {
 			case *ast.FuncLit:
 				return false
 			case *ast.BranchStmt:
-				bad = x.Tok.String() + " at " + c.Pos(x) + " leaves the iteration"
+				// leaving the iteration is fine once the upload of this layer was attempted
+				if !g.Dominates(up.Loc, g.Locate(x)) {
+					bad = x.Tok.String() + " at " + c.Pos(x) + " leaves the iteration before the upload"
+				}
 			}
 			return true
 		})
@@ -787,13 +805,10 @@ func extra8C09(c *Ctx) {
 			bad = "the upload is inside a condition"
 		}
 		// the layer handed over is the loop's element
-		vid, isV := loop.Value.(*ast.Ident)
 		elem := false
-		if isV {
-			for _, a := range up.Node.(*ast.CallExpr).Args {
-				if isIdentOf(info, a, info.Defs[vid]) {
-					elem = true
-				}
+		for _, a := range up.Node.(*ast.CallExpr).Args {
+			if loop.IsElem(a) {
+				elem = true
 			}
 		}
 		if !elem && bad == "" {
